@@ -80,8 +80,16 @@ def run_case(case, rec):
         for lx_ in (ge, gt):
             for j, ss in enumerate(lx_['synsets']):
                 ss['ili'] = f'i9{j}'
+        # gp has the same concepts except two: they appear as placeholder synsets on its hypernym paths
+        gp = graphs.lexicon_for(7, (tie[0], []), lambda j: 'n', None)
+        for j, ss in enumerate(gp['synsets']):
+            ss['ili'] = f'i9{j}'
+        gone = {f'g7-n{j}' for j in (1, 2)}
+        gp['synsets'] = [ss for ss in gp['synsets'] if ss['id'] not in gone]
+        gp['entries'] = [e for e in gp['entries'] if e['senses'][0]['synset'] not in gone]
+        gp['requires'] = [{'id': 'g8', 'version': '1'}]
         gt['requires'] = [{'id': 'g8', 'version': '1'}]
-        res_exp = {'lmf_version': '1.1', 'lexicons': [ge, gt]}
+        res_exp = {'lmf_version': '1.1', 'lexicons': [ge, gt, gp]}
         res11 = {'lmf_version': '1.1', 'lexicons': [base]}
         resx = {'lmf_version': '1.1', 'lexicons': [ext]}
         with env.FreshDB(keep=True) as fdb:
